@@ -98,7 +98,34 @@ func runC03(r *ev.Run) {
 			r.ViolationAt("history", ci, sig, what, map[string]any{"history_tail": h})
 		}
 		replaces, removes, flushes, matched := 0, 0, 0, 0
+		var heldS comet.TextSearch
+		var heldQ string
+		var heldK int
 		probe := func() {
+			// one long-lived search object, executed again after the index changed: the same answer as a fresh object
+			// with the same configuration (scores rank by rank; ids may swap inside exact ties)
+			if heldS != nil {
+				a1, e1 := heldS.Execute()
+				a2, e2 := idx.NewSearch().WithQuery(heldQ).WithK(heldK).Execute()
+				if (e1 != nil) != (e2 != nil) || len(a1) != len(a2) {
+					rep("bm25.held-search-object-differs", fmt.Sprintf("query %q k=%d: a search object executed before and again now: %d results / %v; a fresh object: %d / %v", heldQ, heldK, len(a1), e1, len(a2), e2))
+					heldS = nil
+				} else {
+					for i := range a1 {
+						if math.Float32bits(a1[i].GetScore()) != math.Float32bits(a2[i].GetScore()) {
+							rep("bm25.held-search-object-differs", fmt.Sprintf("query %q k=%d: rank %d has score %g, a fresh object %g", heldQ, heldK, i, a1[i].GetScore(), a2[i].GetScore()))
+							heldS = nil
+							break
+						}
+					}
+				}
+				r.Count("probes:held-search-object", 1)
+			}
+			if heldS == nil || rng.IntN(6) == 0 {
+				heldQ, heldK = tg.query(), []int{0, 1, 3, 10, 1000}[rng.IntN(5)]
+				heldS = idx.NewSearch().WithQuery(heldQ).WithK(heldK)
+				heldS.Execute()
+			}
 			nq := 3 + rng.IntN(3)
 			queries := make([]string, nq)
 			for qi := range queries {
